@@ -9,6 +9,7 @@ import RbpfModel.Model.DriveExec
 import RbpfModel.Model.DriveText
 import RbpfModel.Model.DriveHelpers
 import RbpfModel.Model.DriveApi
+import RbpfModel.Model.DriveXadd
 open Rbpf Rbpf.Hex
 
 def insnStr (i : Insn) : String :=
@@ -83,6 +84,7 @@ def handle (toks : List String) : String :=
   | ["asm", t, _want] => Drive.handleAsm t
   | ["dis", p] => Drive.handleDis p
   | ["rt", p] => Drive.handleRt p
+  | "xadd" :: rest => Drive.handleXadd rest
   | "api" :: rest => Drive.handleApi rest
   | "helper" :: rest => Drive.handleHelper rest
   | ["verify", prog] => Drive.handleVerify prog
